@@ -460,6 +460,19 @@ def oracle_mol(mol, common=None):
             out.append(('C10/entry-point/pach-or-bytes', 'bytes(mol) / mol.pach() differ from mol.pack()'))
     except Exception as e:
         out.append(('C10/entry-point/pach-or-bytes', f'bytes(mol) / mol.pach() raised {e!r}'))
+    # the documented options: within the limits `check=False` writes the same bytes; `version=2` is the only version (anything else is
+    # the documented ValueError); `order` is ignored by version 2
+    try:
+        if (mol.pack(compressed=False, check=False) != data or mol.pach(compressed=False, check=False, version=2) != data
+                or mol.pack(compressed=False, version=2, order=list(mol._atoms)[::-1]) != data):
+            out.append(('C10/entry-point/options', 'pack(check=False) / pack(version=2, order=…) differ from pack()'))
+        try:
+            mol.pack(compressed=False, version=3)
+            out.append(('C10/entry-point/options', 'pack(version=3) did not raise'))
+        except ValueError:
+            pass
+    except Exception as e:
+        out.append(('C10/entry-point/options', f'pack with explicit options raised {e!r}'))
     # stable layout: bytes written from the format description alone (a pack published earlier), format versions 2 and 0,
     # must decode to this molecule through every public reader, compressed or not
     if len(mol._atoms) <= 400:
@@ -1158,6 +1171,13 @@ def corr_reactions(ctx):
                 _state['suspects'].append(sus)
                 return f'reaction pack {shape}: model {str(res)[:80]} real {str(rp)[:80]}'
         b.add('rxn-pack', 'rpack', req, c_pack, sum(shape) > 0)
+        # the property oracle itself, always on, for the small role shapes: every public reaction reader / writer
+        # (`ReactionContainer.pach/unpach/__bytes__`, `chython.unpack/unpach`, compressed and not), roles, pack_len
+        if 0 < sum(shape) <= 9 and rp[0] == 'ok' and k < (64 if ctx.quick else 400):
+            ctx.count(('oracle-rxn', k, tuple(shape)))
+            ctx.dist('stream:property-oracle-rxn')
+            for sig, what in oracle_rxn(rxn, roles):
+                ctx.fail(sig, what, sus)
         if rp[0] != 'ok':
             continue
         data = rp[1]
@@ -1569,7 +1589,8 @@ def oracle_rxn(rxn, roles):
     import chython
     import chython.containers as cont
     try:
-        if zlib.decompress(bytes(rxn)) != data or rxn.pach(compressed=False) != data:
+        if (zlib.decompress(bytes(rxn)) != data or rxn.pach(compressed=False) != data or rxn.pack(compressed=False, check=False) != data
+                or zlib.decompress(rxn.pach(check=False)) != data):
             out.append(('C10/entry-point/pach-or-bytes', 'bytes(reaction) / reaction.pach() differ from reaction.pack()'))
     except Exception as e:
         out.append(('C10/entry-point/pach-or-bytes', f'bytes(reaction) / pach raised {e!r}'))
